@@ -235,4 +235,7 @@ func init() {
 		"	namesSeen := make(set.Set[string], len(names))", "	if skipExisting {\n		return nil\n	}\n	namesSeen := make(set.Set[string], len(names))", "C15.R5.names")
 	mut("C15", "an overwritten channel is dropped from metadata but not from the engine", lpx,
 		"		storageToDelete = append(storageToDelete, ex.Storage().Key)", "		if !ex.Virtual {\n			storageToDelete = append(storageToDelete, ex.Storage().Key)\n		}", "C15.R5.names")
+
+	mut("C08", "the update flag is raised before the state is published", "core/pkg/distribution/framer/codec/codec.go",
+		"	c.mu.updates <- s\n	c.mu.updateAvailable.Store(true)\n}", "	c.mu.updateAvailable.Store(true)\n	c.mu.updates <- s\n}", "C08.R7.publish")
 }
